@@ -5,6 +5,7 @@ package checks
 import (
 	"fmt"
 	"sort"
+	"strconv"
 	"strings"
 	"testing"
 
@@ -32,16 +33,21 @@ var extraProfs = []regProf{
 	{ExtP2Name, P2, "eat-profile", "*checks.ExtP2Claims", extP2Profile{}},
 	{ExtP1Name, P1, "psa-profile", "*checks.ExtP1Claims", extP1Profile{}},
 	{OwnTagName, P2, "x-profile", "*checks.OwnTagClaims", ownTagProfile{}},
+	// derived profiles that inherit everything and only set CanonicalProfile:
+	// one on profile 1 named by a URI (in CBOR it is declared under key 265,
+	// with or without -75000), one on profile 2 named by an OID
+	{InhP1Name, P1, "psa-profile", "*checks.InheritP1Claims", inheritP1Profile{}},
+	{InhP2OID, P2, "eat-profile", "*checks.InheritP2Claims", inheritP2Profile{}},
 }
 
-var c07Names = []string{P1Name, P2Name, ExtP2Name, ExtP1Name, OwnTagName, "http://example.com/unknown", "PSA_IOT_PROFILE_2", "psa_iot_profile_1", "http://arm.com/psa/2.0.0/", "http://ARM.com/psa/2.0.0", "1.2.3.4",
+var c07Names = []string{P1Name, P2Name, ExtP2Name, ExtP1Name, OwnTagName, InhP1Name, InhP2OID, "1.3.6.1.4.1.4128.100.3", "http://example.com/unknown", "PSA_IOT_PROFILE_2", "psa_iot_profile_1", "http://arm.com/psa/2.0.0/", "http://ARM.com/psa/2.0.0", "1.2.3.4",
 	// spellings that URL / string normalisation would map onto a registered name
 	"HTTP://arm.com/psa/2.0.0", "http://arm.com/psa/2.0.0#", "http://arm.com/psa/2.0.0?", "http://arm.com:80/psa/2.0.0", "http://arm.com/psa/./2.0.0",
 	"http://arm.com/psa/2.0.0 ", " http://arm.com/psa/2.0.0", "http://arm.com/psa/2.0.0\x00", "http://arm.com/psa/2%2E0.0", "PSA_IOT_PROFILE_1 ", "PSA_IOT_PROFILE_1\n",
 	"HTTP://example.com/verif/ext-on-p2", "http://example.com/verif/ext-on-p2#"}
 
 type slotVal struct {
-	Kind string `json:"kind"` // absent | null | undefined | empty | name | nontext
+	Kind string `json:"kind"` // absent | null | undefined | empty | name | nontext | oid (CBOR: Name as the byte-string OID form)
 	Name string `json:"name,omitempty"`
 }
 
@@ -130,8 +136,35 @@ func slotCBOR(s slotVal) *icbor.Node {
 		return icbor.Tstr(s.Name)
 	case "nontext":
 		return icbor.U(5)
+	case "oid":
+		return icbor.Bstr(oidContent(s.Name))
 	}
 	return nil
+}
+
+// oidContent: the BER content octets of a dotted-decimal OID (what EAT puts
+// into the eat_profile byte string).
+func oidContent(dotted string) []byte {
+	var arcs []uint64
+	for _, f := range strings.Split(dotted, ".") {
+		n, err := strconv.ParseUint(f, 10, 64)
+		if err != nil {
+			panic("VERIF-INFRA: bad OID " + dotted)
+		}
+		arcs = append(arcs, n)
+	}
+	b128 := func(n uint64) []byte {
+		r := []byte{byte(n & 0x7f)}
+		for n >>= 7; n > 0; n >>= 7 {
+			r = append([]byte{byte(n&0x7f) | 0x80}, r...)
+		}
+		return r
+	}
+	out := b128(arcs[0]*40 + arcs[1])
+	for _, a := range arcs[2:] {
+		out = append(out, b128(a)...)
+	}
+	return out
 }
 
 func bodyPairs(m *MClaims) [][2]*icbor.Node {
@@ -303,7 +336,7 @@ type c07Expect struct {
 
 func profPtr(s slotVal) *string {
 	switch s.Kind {
-	case "name":
+	case "name", "oid":
 		return sp(s.Name)
 	case "empty":
 		return sp("")
@@ -343,6 +376,17 @@ func (c *c07Case) expect() c07Expect {
 			if c.S2.Name == P1Name {
 				return c07Expect{Soft: true}
 			}
+			if strings.HasPrefix(c.S2.Name, "1.3.6.") {
+				// the dotted form as TEXT is not an eat_profile value (a text
+				// eat_profile is an absolute URI): no profile's valid token
+				return c07Expect{Err: true}
+			}
+			if sel = findProf(regs, c.S2.Name); sel == nil {
+				return c07Expect{Err: true}
+			}
+		case "oid":
+			// the OID as EAT encodes it (byte string): declares the profile
+			// registered under the dotted form
 			if sel = findProf(regs, c.S2.Name); sel == nil {
 				return c07Expect{Err: true}
 			}
@@ -706,6 +750,9 @@ func TestC07_Dispatch(t *testing.T) {
 		if c.Format != "json" {
 			c.S1 = drawSlot(t, "s1", []string{"absent", "absent", "name", "empty"})
 			c.S2 = drawSlot(t, "s2", append(textKinds, "undefined", "name", "name"))
+			if rapid.IntRange(0, 9).Draw(t, "s2.oid") == 0 {
+				c.S2 = slotVal{Kind: "oid", Name: rapid.SampledFrom([]string{InhP2OID, InhP2OID, "1.3.6.1.4.1.4128.100.3", "2.999.1"}).Draw(t, "s2.oidname")}
+			}
 		} else {
 			c.S1 = drawSlot(t, "s1", textKinds)
 			c.S2 = drawSlot(t, "s2", textKinds)
@@ -719,9 +766,26 @@ func TestC07_Dispatch(t *testing.T) {
 				} else {
 					c.S1 = slotVal{Kind: "absent"}
 				}
+				if rapid.IntRange(0, 3).Draw(t, "p1.derived") == 0 {
+					// a profile derived from profile 1: CBOR declares it under
+					// key 265 (with or without -75000), JSON under psa-profile
+					if c.Format == "json" {
+						c.S1 = slotVal{Kind: "name", Name: InhP1Name}
+					} else {
+						c.S2 = slotVal{Kind: "name", Name: InhP1Name}
+						if c.S1.Kind == "name" && genBool.Draw(t, "p1.derived.explicit") {
+							c.S1.Name = InhP1Name
+						} else {
+							c.S1 = slotVal{Kind: "absent"}
+						}
+					}
+				}
 			} else {
 				c.S1 = slotVal{Kind: "absent"}
-				c.S2 = slotVal{Kind: "name", Name: rapid.SampledFrom([]string{P2Name, P2Name, ExtP2Name, OwnTagName}).Draw(t, "p2.name")}
+				c.S2 = slotVal{Kind: "name", Name: rapid.SampledFrom([]string{P2Name, P2Name, ExtP2Name, OwnTagName, InhP2OID}).Draw(t, "p2.name")}
+				if c.S2.Name == InhP2OID && c.Format != "json" {
+					c.S2.Kind = "oid"
+				}
 				if c.S2.Name == OwnTagName && c.Format == "json" {
 					c.SX = slotVal{Kind: "name", Name: OwnTagName}
 				}
